@@ -70,6 +70,8 @@ def collect(facts, files, unit="cedar_policy_core.lib"):
                 continue
             meth = c.split("::")[-1]
             ty = c.split("<impl ")[1].split(">")[0]
+            if meth in ("checked_rem", "checked_rem_euclid", "checked_div", "checked_div_euclid") and len(t[2]) == 2 and _safe_divisor(t[2][1]):
+                continue  # cannot fail for a constant divisor other than 0 and -1: no discipline attaches (and it may become rem_euclid)
             if "::checked_" in c:
                 k = "%s|checked|%s|%s" % (short_file, meth, ty)
                 out.setdefault(k, []).append((n, t[1].get("l")))
